@@ -138,6 +138,8 @@ Ltac c_step :=
   c_simp;
   match goal with
   | |- context [if ?b then _ else _] =>
+      (* innermost first: a condition that itself contains an [if] is left for later *)
+      lazymatch b with context [if _ then _ else _] => fail | _ => idtac end;
       first
         [ tryif is_open b then fail else
             (let v := eval vm_compute in b in
